@@ -39,17 +39,17 @@ Qed.
 Lemma pres_ret : pres ret. Proof. intro s; reflexivity. Qed.
 Lemma pres_raise : pres raise. Proof. intro s; reflexivity. Qed.
 Lemma pres_print o : pres (lift (print o)). Proof. intro s; reflexivity. Qed.
-Lemma pres_emit f l : pres (emit f l).
+Lemma pres_emit C f l : pres (emit C f l).
 Proof.
   intro s. unfold emit, consult. destruct (app s); try (destruct (level_geb_warning l); reflexivity).
-  destruct (f Emit (n s)); reflexivity.
+  destruct (f Emit (n s)); [destruct (c_tb C)|]; reflexivity.
 Qed.
 Lemma pres_setup C f : pres (setup C f).
 Proof.
   intro s. unfold setup, consult. destruct (f SetupMkdir (n s)); [reflexivity|]. simpl.
   destruct (f SetupOpen (S (n s))); reflexivity.
 Qed.
-Lemma pres_respond f m v r : pres (respond f m v r).
+Lemma pres_respond C f m v r : pres (respond C f m v r).
 Proof. apply pres_bind; [apply pres_emit | apply pres_print]. Qed.
 Lemma pres_say msg : pres (say msg).
 Proof. destruct msg as [[|c t]|]; simpl; first [apply pres_ret | apply pres_print]. Qed.
@@ -68,10 +68,10 @@ Section Dec.
     induction evs as [|ev evs IH]; intros log full s; cbn [load final_log].
     - repeat split.
     - destruct ev as [|p|].
-      + pose proof (pres_emit f Warning s) as P. destruct (emit f Warning s) as [s1 b]; simpl in P.
+      + pose proof (pres_emit C f Warning s) as P. destruct (emit C f Warning s) as [s1 b]; simpl in P.
         destruct (IH log full s1) as (A & B & D). repeat split; [exact A | exact B | rewrite D; exact P].
       + unfold consult. destruct (Hok (n s)) as (E & _). rewrite E.
-        destruct (IH (Some p) full (tick s)) as (A & B & D). repeat split; [exact A | exact B | rewrite D; reflexivity].
+        destruct (IH (Some p) full (tick Expand s)) as (A & B & D). repeat split; [exact A | exact B | rewrite D; reflexivity].
       + apply IH.
   Qed.
 
@@ -101,19 +101,19 @@ Section Dec.
 
   (* emit ; log_decision ; respond *)
   Lemma decide_proj m v r d c rule cmd s :
-    proj (fst ((bind (emit f Info) (bind (log_decision C f ts d c rule cmd) (respond f m v r))) s)) =
+    proj (fst ((bind (emit C f Info) (bind (log_decision C f ts d c rule cmd) (respond C f m v r))) s)) =
     match lcfg s with
     | Some (p, full) =>
         if disabled s then proj s else (declog s ++ [jline (entry full d c rule None cmd ts)], lcfg s, false)
     | None => proj s
     end.
   Proof.
-    unfold bind at 1. pose proof (pres_emit f Info s) as P.
-    assert (R : snd (emit f Info s) = false) by (destruct (eff_emit f Info s); assumption).
-    destruct (emit f Info s) as [s1 r1]; simpl in P, R. subst r1.
+    unfold bind at 1. pose proof (pres_emit C f Info s) as P.
+    assert (R : snd (emit C f Info s) = false) by (destruct (eff_emit C f Info s); assumption).
+    destruct (emit C f Info s) as [s1 r1]; simpl in P, R. subst r1.
     unfold bind. destruct (log_decision_proj d c rule cmd s1) as [R2 P2].
     destruct (log_decision C f ts d c rule cmd s1) as [s2 r2]; simpl in R2, P2. subst r2.
-    rewrite (pres_respond f m v r s2), P2.
+    rewrite (pres_respond C f m v r s2), P2.
     unfold proj in P. injection P as P1 P3 P4. unfold proj. rewrite P3, P4, P1. reflexivity.
   Qed.
 
@@ -151,18 +151,18 @@ Section Dec.
   Proof. intro E. unfold bind. destruct (a s) as [s1 r]; simpl in *. subst r. reflexivity. Qed.
 
   Definition pre (i : hin) : st -> st * bool :=
-    if h_explicit i then ret else bind (if h_unknown_tool i then emit f Warning else ret) (emit f Info).
+    if h_explicit i then ret else bind (if h_unknown_tool i then emit C f Warning else ret) (emit C f Info).
   Definition rest (i : hin) : st -> st * bool := fun s =>
     let '((s1, raised), (log, full)) := load C f (h_cfg i) None false s in
     if raised then (s1, true)
-    else if h_cfg_error i then (bind (emit f Error) (respond f (h_mode i) Ask $"config error")) s1
+    else if h_cfg_error i then (bind (emit C f Error) (respond C f (h_mode i) Ask $"config error")) s1
     else (bind (configure C f log full) (dispatch C f ts (h_mode i) (h_route i))) s1.
   Lemma body_unfold i : h_json_ok i = true -> body C f ts i = bind (pre i) (rest i).
   Proof. intro E. unfold body. rewrite E. reflexivity. Qed.
   Lemma pre_noraise i s : snd (pre i s) = false.
   Proof.
     unfold pre. destruct (h_explicit i); [reflexivity|].
-    assert (E : eff (bind (if h_unknown_tool i then emit f Warning else ret) (emit f Info)) ([] ++ []) false).
+    assert (E : eff (bind (if h_unknown_tool i then emit C f Warning else ret) (emit C f Info)) ([] ++ []) false).
     { apply eff_bind; [|apply eff_emit]. destruct (h_unknown_tool i); [apply eff_emit | apply eff_ret]. }
     destruct (E s); assumption.
   Qed.
@@ -185,7 +185,7 @@ Section Dec.
     destruct (load C f (h_cfg i) None false s) as [[s1 raised] [log full]]; simpl in A, B, D. subst raised.
     rewrite <- A. rewrite P0 in D.
     destruct (h_cfg_error i).
-    - assert (Q : pres (bind (emit f Error) (respond f (h_mode i) Ask $"config error")))
+    - assert (Q : pres (bind (emit C f Error) (respond C f (h_mode i) Ask $"config error")))
         by (apply pres_bind; [apply pres_emit | apply pres_respond]).
       specialize (Q s1). rewrite D in Q. apply (f_equal (fun t => fst (fst t))) in Q. exact Q.
     - destruct (configure_proj log full s1) as [R2 P2]. rewrite bind_noraise by exact R2.
@@ -215,7 +215,7 @@ Proof.
   destruct (setup head f init) as [s1 crashed]; simpl in P, R. subst crashed.
   pose proof (body_declog head f ts Hok i s1 P) as B.
   destruct (body head f ts i s1) as [s2 raised]; simpl in B. destruct raised; unfold finish; simpl; [|exact B].
-  assert (Q : pres (bind (emit f Error) (lift (print OEmpty)))) by (apply pres_bind; [apply pres_emit | apply pres_print]).
+  assert (Q : pres (bind (emit head f Error) (lift (print OEmpty)))) by (apply pres_bind; [apply pres_emit | apply pres_print]).
   specialize (Q s2). unfold proj in Q. injection Q as -> _ _. exact B.
 Qed.
 
@@ -362,11 +362,11 @@ Proof.
     - clear s. intro s.
       assert (LQ : forall evs log full s, declog (fst (fst (load head f evs log full s))) = declog s).
       { induction evs as [|ev evs IH]; intros log full s0; cbn [load]; [reflexivity|]. destruct ev as [|p|].
-        - pose proof (pres_emit f Warning s0) as PE. destruct (emit f Warning s0) as [sa b]; simpl in PE.
+        - pose proof (pres_emit head f Warning s0) as PE. destruct (emit head f Warning s0) as [sa b]; simpl in PE.
           rewrite IH. apply (f_equal (fun t => fst (fst t))) in PE. exact PE.
         - unfold consult. destruct (f Expand (n s0)) as [e|].
           + (match goal with |- context [if ?b then _ else _] => destruct b end); [|reflexivity].
-            pose proof (pres_emit f Warning (tick s0)) as PE. destruct (emit f Warning (tick s0)) as [sa b]; simpl in PE.
+            pose proof (pres_emit head f Warning (tick Expand s0)) as PE. destruct (emit head f Warning (tick Expand s0)) as [sa b]; simpl in PE.
             rewrite IH. apply (f_equal (fun t => fst (fst t))) in PE. exact PE.
           + rewrite IH. reflexivity.
         - apply IH. }
@@ -384,7 +384,7 @@ Proof.
   assert (F : declog s2 = [] \/ exists e, declog s2 = [jline e]).
   { destruct BODY as [X | [e X]]; rewrite X, D1; [left; reflexivity | right; exists e; reflexivity]. }
   destruct raised; unfold finish; simpl; [|exact F].
-  assert (Q : pres (bind (emit f Error) (lift (print OEmpty)))) by (apply pres_bind; [apply pres_emit | apply pres_print]).
+  assert (Q : pres (bind (emit head f Error) (lift (print OEmpty)))) by (apply pres_bind; [apply pres_emit | apply pres_print]).
   specialize (Q s2). apply (f_equal (fun t => fst (fst t))) in Q. simpl in Q. rewrite Q. exact F.
 Qed.
 
